@@ -197,7 +197,9 @@ TR = ['map', 'filter', 'flatMap', 'mapValues', 'flatMapValues', 'keyBy', 'keys',
 ACT = ['collect', 'count', 'first', 'take', 'sum', 'reduce', 'fold', 'aggregate', 'countByValue', 'top',
        'takeOrdered', 'lookup', 'collectAsMap', 'toLocalIterator', 'min', 'max', 'mean']
 
-RULE = ('cases (xs, numSlices, stages, action): (1) exhaustive small scope -- every input of length <= 3 over the '
+RULE = ('cases (xs, numSlices, stages, action): (0) slice-count sweep -- parallelize(range(L), n) for every L in 0..9 x '
+        'every n in 1..140, sampled n up to 4000 and L up to 60, observed as count/collect/partition sizes; '
+        '(1) exhaustive small scope -- every input of length <= 3 over the '
         'alphabets {0,1,2} and {(0,1),(1,"a"),"ab"} x every single stage with every library function x every slice '
         'count 1..len+2, and every action with every library parameter on every integer / pair input x every slice '
         'count; (2) random pipelines of depth 0-4 (stages chosen to be mostly well-typed for the data reaching '
@@ -218,7 +220,13 @@ TRUSTED = ['translator kernels par_take, par_single, coalesce_plan, sc_merge, sc
            'function library pairs (py/c01.py vs coq/Model/RddLib.v), validated by the same correspondence run']
 
 
+def is_sweep(case):
+    return len(case) == 2
+
+
 def kind(case):
+    if is_sweep(case):
+        return 'sweep'
     return ACT[case[3][0]] + ('/' + '+'.join(TR[o[0]] for o in case[2]) if len(case[2]) == 1 else f'/{len(case[2])}')
 
 
@@ -301,7 +309,20 @@ def _action(rdd, act):
     raise ValueError(f'unknown action {act!r}')
 
 
+def impl_sweep(case):
+    """parallelize(range(L), n) observed compactly: count, collect, number of partitions, non-empty partition sizes"""
+    ln, n = case
+    try:
+        rdd = Context().parallelize(range(ln), n)
+        g = rdd.glom().collect()
+        return (rdd.count(), rdd.collect(), len(g), [(i, len(p)) for i, p in enumerate(g) if p])
+    except Exception as e:  # pylint: disable=broad-except
+        return Err(type(e).__name__)
+
+
 def impl(case):
+    if is_sweep(case):
+        return impl_sweep(case)
     xs, n, ops, act = case
     out = []
     ctx = Context()
@@ -462,6 +483,16 @@ def _same(a, b):
 
 def oracle(case, result):
     """The statement of C01 evaluated on the implementation's observations alone."""
+    if is_sweep(case):
+        ln, n = case
+        if isinstance(result, Err):
+            return ('parallelize:raised', f'parallelize(range({ln}), {n}) raised {result.name}')
+        count, coll, _, sizes = result
+        if coll != list(range(ln)):
+            return ('parallelize:flat', f'parallelize(range({ln}), {n}).collect() = {coll!r}')
+        if count != ln or sum(sz for _, sz in sizes) != ln:
+            return ('parallelize:count', f'parallelize(range({ln}), {n}): count() = {count}, glom sizes {sizes!r}')
+        return None
     xs, n, ops, act = case
     if not isinstance(result, list) or not result:
         return ('harness:no-result', repr(result)[:200])
@@ -528,6 +559,8 @@ def oracle(case, result):
 
 
 def nontrivial(case, result):
+    if is_sweep(case):
+        return case[0] > 0 and case[1] > 1
     xs, _, ops, act = case
     return bool(xs) and (bool(ops) or act[0] != A_COLLECT)
 
@@ -751,9 +784,22 @@ REGRESSIONS = [
 ]
 
 
+def sweep_cases(rng, tier):
+    """dense sweep of slice counts far above the length: every length 0..9 x every numSlices 1..140, and a
+    sampled band up to a few thousand slices (rounding of the slice bounds only shows for particular pairs)"""
+    cases = [(ln, n) for ln in range(10) for n in range(1, 141)]
+    for _ in range(250 if tier == 'quick' else 2500):
+        cases.append((rng.randint(0, 12), rng.randint(141, rng.choice([400, 1000, 4000]))))
+    for _ in range(50 if tier == 'quick' else 500):
+        ln = rng.randint(13, 60)
+        cases.append((ln, rng.randint(1, 3 * ln)))
+    return cases
+
+
 def generate(rng, tier):
     quick = tier == 'quick'
     cases = [copy.deepcopy(c) for c in REGRESSIONS]
+    cases += sweep_cases(rng, tier)     # early: also the head of the search stream when an obligation breaks
     ints = [0, 1, 2]
     mixed = [(0, 1), (1, 'a'), 'ab']
     # (1) exhaustive small scope: single stages
@@ -779,6 +825,21 @@ def generate(rng, tier):
             cases.append((copy.deepcopy(xs), n, [], (A_FOLD, [], OP_EXTEND)))
             cases.append((copy.deepcopy(xs), n, [(T_MAP, 0)], (A_AGGREGATE, [], OP_APPEND, OP_EXTEND)))
             cases.append((copy.deepcopy(xs), n, [], (A_AGGREGATE, [0], OP_APPEND, OP_EXTEND)))
+    # in-place folds (zero-value isolation) and dictionary-valued actions on duplicate keys: exhaustive over
+    # every input of length <= 3 and every slice count, in both tiers
+    for xs in _inputs_upto([[1], [2], []], 3):
+        for n in range(1, len(xs) + 3):
+            cases.append((copy.deepcopy(xs), n, [], (A_FOLD, [], OP_EXTEND)))
+            cases.append((copy.deepcopy(xs), n, [], (A_AGGREGATE, [], OP_APPEND, OP_EXTEND)))
+            cases.append((copy.deepcopy(xs), n, [], (A_AGGREGATE, [], OP_EXTEND, OP_EXTEND)))
+    for xs in _inputs_upto([(0, 1), (0, 2), (1, 3)], 3):
+        for n in range(1, len(xs) + 3):
+            for ac in ((A_COLLECTASMAP,), (A_LOOKUP, 0), (A_COUNTBYVALUE,), (A_TOP, 2, 5), (A_TAKEORDERED, 2, 5),
+                       (A_REDUCE, OP_PAIRADD), (A_FIRST,)):
+                cases.append((copy.deepcopy(xs), n, [], ac))
+            cases.append((copy.deepcopy(xs), n, [(T_KEYS,)], (A_COUNTBYVALUE,)))
+            cases.append((copy.deepcopy(xs), n, [(T_ZIP, [7, 8, 9], n)], (A_COLLECT,)))
+            cases.append((copy.deepcopy(xs), n, [(T_FILTER, 5), (T_ZIP, [(0, 1), (0, 2), (1, 3)], n)], (A_COLLECTASMAP,)))
     # large slice counts, numSlices None / 0 / negative
     for xs in ([], [1], [1, 2, 3], list(range(10)), ['a', None, (1, 2)]):
         for n in (None, 0, -2, 17, 100, 1000):
@@ -804,6 +865,8 @@ def _known_flat(case):
 
 
 def shrink_candidates(case):
+    if is_sweep(case):
+        return
     xs, n, ops, act = case
     for i in range(len(ops)):
         yield (xs, n, ops[:i] + ops[i + 1:], act)
